@@ -528,7 +528,8 @@ class FlowCheck(core.Check):
     GEN_THEOREMS = {
         'C01': ['gthm_no_escape', 'gthm_one_response', 'gthm_unexpected_5xx', 'gthm_no_leak'],
         'C09': ['gthm_end_resource_once', 'gthm_hook_bounds', 'gthm_hook_tables', 'gthm_end_request_not_in_run',
-                'gthm_end_request_at_most_once', 'gthm_end_request_exactly_once_if_closed'],
+                'gthm_end_request_at_most_once', 'gthm_end_request_exactly_once_if_closed', 'gthm_served_closed',
+                'gthm_end_request_exactly_once'],
     }
 
     def regenerated_theorems(self, text):
